@@ -30,6 +30,9 @@ pub struct Report {
     pub rule: String,
     pub exhaustive: Option<bool>,
     pub assumptions: BTreeSet<String>,
+    /// Coverage floors are meaningful only for full-scale runs; reduced runs (under an
+    /// interpreter) keep only the floors registered with `*_always`.
+    pub floors_enabled: bool,
 }
 
 impl Report {
@@ -54,6 +57,7 @@ impl Report {
             rule: String::new(),
             exhaustive: None,
             assumptions: BTreeSet::new(),
+            floors_enabled: true,
         }
     }
 
@@ -104,12 +108,23 @@ impl Report {
 
     /// The merged counter `key` must reach at least `min` or the run is inconclusive.
     pub fn floor(&mut self, key: &str, min: u64) {
+        if !self.floors_enabled {
+            return;
+        }
         self.floors.insert(key.to_string(), min);
         self.counters.entry(key.to_string()).or_insert(0);
     }
 
     /// The merged set `key` must have at least `min` members or the run is inconclusive.
     pub fn set_floor(&mut self, key: &str, min: u64) {
+        if !self.floors_enabled {
+            return;
+        }
+        self.set_floor_always(key, min);
+    }
+
+    /// A floor that also applies to reduced runs.
+    pub fn set_floor_always(&mut self, key: &str, min: u64) {
         self.set_floors.insert(key.to_string(), min);
         self.sets.entry(key.to_string()).or_default();
     }
